@@ -128,11 +128,22 @@ TMP = re.compile(r"/\.kismet_temp/([^/]+)$")
 
 
 def unesc(s):
-    return re.sub(r"%([0-9a-f]{2})", lambda m: chr(int(m.group(1), 16)), s)
+    """percent-escaped token -> str (arbitrary bytes survive as surrogate escapes)"""
+    out = bytearray()
+    b = s.encode("utf-8", "surrogateescape")
+    i = 0
+    while i < len(b):
+        if b[i] == 0x25 and i + 2 < len(b) + 0 and re.match(rb"[0-9a-f]{2}", b[i + 1:i + 3]):
+            out.append(int(b[i + 1:i + 3], 16)); i += 3
+        else:
+            out.append(b[i]); i += 1
+    return out.decode("utf-8", "surrogateescape")
 
 
 def esc_tok(s):
-    return "".join(("%%%02x" % ord(c)) if (ord(c) <= 0x20 or c == "%" or ord(c) == 0x7f or c == "," or c == "|") else c for c in s)
+    """str -> pure-ASCII token: whitespace, control bytes, '%', ',', '|' and every byte >= 0x7f percent-escaped"""
+    return "".join(("%%%02x" % c) if (c <= 0x20 or c == 0x25 or c >= 0x7f or c == 0x2c or c == 0x7c) else chr(c)
+                   for c in s.encode("utf-8", "surrogateescape"))
 
 
 def oracle_of(events):
